@@ -123,6 +123,54 @@ let policy_of_sx = function
            p_conds = List.map (function L [A k; x] -> (k = "when", expr_of_sx x) | _ -> failwith "bad cond") cs })
   | s -> failwith ("bad policy " ^ to_string s)
 
+let sx_of_pattern (p : (bool * Model.z list) list) : Sexp.t =
+  L (A "pat" :: List.concat_map (fun (w, lit) ->
+      (if w then [L [A "w"]] else []) @ (if (not w) || lit <> [] then [A (atom_of_str lit)] else [])) p)
+
+let rec sx_of_expr (e : expr) : Sexp.t =
+  let x = sx_of_expr in
+  match e with
+  | ELit v -> L [A "lit"; sx_of_value v]
+  | EVar v -> L [A "var"; A (match v with VPrincipal -> "principal" | VAction -> "action" | VResource -> "resource" | VContext -> "context")]
+  | EAnd (a, b) -> L [A "and"; x a; x b] | EOr (a, b) -> L [A "or"; x a; x b]
+  | ENot a -> L [A "not"; x a] | ENeg a -> L [A "neg"; x a]
+  | EAdd (a, b) -> L [A "add"; x a; x b] | ESub (a, b) -> L [A "sub"; x a; x b] | EMul (a, b) -> L [A "mul"; x a; x b]
+  | EEq (a, b) -> L [A "eq"; x a; x b] | ENe (a, b) -> L [A "ne"; x a; x b]
+  | ELt (a, b) -> L [A "lt"; x a; x b] | ELe (a, b) -> L [A "le"; x a; x b]
+  | EGt (a, b) -> L [A "gt"; x a; x b] | EGe (a, b) -> L [A "ge"; x a; x b]
+  | EIn (a, b) -> L [A "in"; x a; x b]
+  | EContains (a, b) -> L [A "contains"; x a; x b]
+  | EContainsAll (a, b) -> L [A "containsAll"; x a; x b]
+  | EContainsAny (a, b) -> L [A "containsAny"; x a; x b]
+  | EIsEmpty a -> L [A "isEmpty"; x a]
+  | EAccess (a, k) -> L [A "access"; x a; A (atom_of_str k)]
+  | EHas (a, k) -> L [A "has"; x a; A (atom_of_str k)]
+  | EGetTag (a, b) -> L [A "getTag"; x a; x b] | EHasTag (a, b) -> L [A "hasTag"; x a; x b]
+  | ELike (a, p) -> L [A "like"; x a; sx_of_pattern p]
+  | EIs (a, t) -> L [A "is"; x a; A (atom_of_str t)]
+  | EIsIn (a, t, b) -> L [A "isIn"; x a; A (atom_of_str t); x b]
+  | EIf (c, t, f) -> L [A "if"; x c; x t; x f]
+  | ESet es -> L (A "mkset" :: List.map x es)
+  | ERecord kvs -> L (A "mkrec" :: List.map (fun (k, v) -> L [A (atom_of_str k); x v]) kvs)
+  | ECall (n, args) -> L (A "call" :: A (atom_of_str n) :: List.map x args)
+  | EPartialError k -> L [A "perr"; A (string_of_errk k)]
+
+let sx_of_uid (t, i) = L [A "e"; A (atom_of_str t); A (atom_of_str i)]
+
+let sx_of_scope = function
+  | SAll -> L [A "all"]
+  | SEq u -> L [A "eq"; sx_of_uid u]
+  | SIn u -> L [A "in"; sx_of_uid u]
+  | SInSet us -> L (A "inset" :: List.map sx_of_uid us)
+  | SIs t -> L [A "is"; A (atom_of_str t)]
+  | SIsIn (t, u) -> L [A "isin"; A (atom_of_str t); sx_of_uid u]
+
+let sx_of_policy id annots (p : policy) : Sexp.t =
+  L [A "policy"; A id; A (if p.p_effect then "permit" else "forbid");
+     sx_of_scope p.p_principal; sx_of_scope p.p_action; sx_of_scope p.p_resource;
+     L (A "conds" :: List.map (fun (w, e) -> L [A (if w then "when" else "unless"); sx_of_expr e]) p.p_conds);
+     annots]
+
 let sx_of_res = function
   | Ok v -> L [A "ok"; sx_of_value v]
   | Err k -> L [A "err"; A (string_of_errk k)]
@@ -168,9 +216,67 @@ let run_authz_abs payload =
   L [L [A "dec"; A (match r.dec with Allow -> "allow" | Deny -> "deny")];
      L [A "reasons"; ids r.reasons]; L [A "errors"; ids r.errs]]
 
+let outcome_sx = function
+  | Ok (VBool true) -> A "t"
+  | Ok (VBool false) -> A "f"
+  | Ok _ -> L [A "e"; A "type"]
+  | Err k -> L [A "e"; A (string_of_errk k)]
+
+(* ---- fold: <store> <req> <policy> ---- *)
+let run_fold payload =
+  match payload with
+  | [store; req; pol] ->
+    let en = env_of_sx store req in
+    let (id, p) = policy_of_sx pol in
+    let annots = (match pol with L l when List.length l > 7 -> List.nth l 7 | _ -> L [A "annots"]) in
+    let fp = fold_policy fold_table p in
+    L [L [A "compiled"; outcome_sx (bool_eval en (policy_to_expr fp))];
+       L [A "unfolded"; outcome_sx (bool_eval en (policy_to_expr p))];
+       L [A "astsame"; A "1"];
+       L [A "folded"; sx_of_policy id annots fp]]
+  | _ -> failwith "fold payload"
+
+let run_foldexpr payload =
+  match payload with
+  | [e] -> sx_of_expr (fold fold_table (expr_of_sx e))
+  | _ -> failwith "foldexpr payload"
+
+(* ---- pshist: (ops op...) ---- *)
+let pool_eff h = match int_of_cz h with 1 | 3 -> Forbid | _ -> Permit
+let pool_ev h = match int_of_cz h with 0 | 1 | 4 -> OTrue | 2 -> OFalse | _ -> OErr
+
+let run_pshist payload =
+  let ops = match payload with [L (A "ops" :: ops)] -> ops | _ -> failwith "pshist payload" in
+  let op_of = function
+    | L [A "add"; A id; A h] -> OAdd (str_of_atom id, cz_of_string h)
+    | L [A "remove"; A id] -> ORemove (str_of_atom id)
+    | L [A "get"; A id] -> OGet (str_of_atom id)
+    | L [A "all"] -> OAll
+    | L [A "mapmut"; A id; A h] -> OMapMutate (str_of_atom id, cz_of_string h)
+    | L [A "cedar"] -> OMarshalCedar
+    | L [A "json"] -> OJsonRoundTrip
+    | L [A "cedarrt"] -> OCedarRoundTrip
+    | L (A "fromdoc" :: hs) -> OFromDoc (List.map (fun h -> cz_of_string (atom h)) hs)
+    | L [A "authz"] -> OAuthorize
+    | s -> failwith ("bad op " ^ to_string s) in
+  let outs = run pool_eff pool_ev [] (List.map op_of ops) in
+  let sx_of_out = function
+    | RBool b -> L [A "bool"; A (if b then "true" else "false")]
+    | RGet None -> L [A "get"; A "none"]
+    | RGet (Some h) -> L [A "get"; A (string_of_cz h)]
+    | RBindings l -> L (A "bindings" :: List.map (fun (k, h) -> L [A (atom_of_str k); A (string_of_cz h)]) l)
+    | RList l -> L (A "list" :: List.map (fun h -> A (string_of_cz h)) l)
+    | RDecision (d, rs, es) ->
+      let ids l = L (List.sort compare (List.map (fun k -> A (atom_of_str k)) l)) in
+      L [A "decision"; A (match d with Allow -> "allow" | Deny -> "deny"); ids rs; ids es] in
+  L (List.map sx_of_out outs)
+
 let run_case kind payload =
   match kind with
   | "authz-abs" -> run_authz_abs payload
   | "eval" -> run_eval payload
   | "authz" -> run_authz payload
+  | "pshist" -> run_pshist payload
+  | "fold" -> run_fold payload
+  | "foldexpr" -> run_foldexpr payload
   | k -> L [A "unsupported"; A k]
